@@ -22,8 +22,9 @@ def parseF (s : String) : Float :=
 
 def hexChar (d : Nat) : Char := if d < 10 then Char.ofNat (d + 48) else Char.ofNat (d - 10 + 97)
 
+/-- hex bit pattern; every NaN is written as the canonical quiet NaN (sign and payload of NaNs are not compared) -/
 def fmtF (x : Float) : String :=
-  let v := x.toBits.toNat
+  let v := if x.isNaN then 0x7ff8000000000000 else x.toBits.toNat
   String.ofList ((List.range 16).map fun k => hexChar ((v >>> (4 * (15 - k))) % 16))
 
 def fmtFs (xs : Array Float) : String := ",".intercalate (xs.toList.map fmtF)
